@@ -331,6 +331,12 @@ func tvInstantiate(r *irRule, ridx int, pat string, quick bool, withPkgVar bool)
 			}
 		}
 		if withPkgVar {
+			// the same namesakes declared in the function's own scope (expression patterns)
+			for _, e := range append([]string{}, envs[1:]...) {
+				if kind == "expr" {
+					envs = append(envs, "shadowlocal:"+strings.TrimPrefix(e, "shadow:"))
+				}
+			}
 			for _, mm := range tvPkgQual.FindAllStringSubmatch(tmpl, -1) {
 				if _, ok := tvPkgPaths[mm[1]]; ok && mm[1] != "time" {
 					for _, rt := range []string{"int", "*bool", "string"} {
@@ -399,10 +405,19 @@ func tvInstantiate(r *irRule, ridx int, pat string, quick bool, withPkgVar bool)
 				} else {
 					body = "func target() {\n\t" + c + "\n}\n"
 				}
+				if strings.HasPrefix(env, "shadowlocal:") {
+					name := strings.TrimPrefix(env, "shadowlocal:")
+					res := "int { return 0 }"
+					if name == "append" {
+						res = "[]int { return nil }"
+					}
+					body = "func target() {\n\t" + name + " := func(a ...interface{}) " + res + "\n\t_ = " + name + "\n\tgsxSnk = " + c + "\n}\n"
+					cand.Kind = "stmts"
+				}
 				cand.Src = tvFile("cand", env, body, "")
 				cand.Off = strings.LastIndex(cand.Src, c)
 				out = append(out, cand)
-				if kind == "expr" && strings.HasSuffix(strings.TrimSpace(c), ")") {
+				if kind == "expr" && cand.Kind == "expr" && strings.HasSuffix(strings.TrimSpace(c), ")") {
 					// a call may have several results or none: also as an expression statement
 					c2 := *cand
 					c2.Kind = "stmts"
@@ -1450,7 +1465,7 @@ func tvJudge(prop string, c *tvCand, w tvWarning, rules []irRule, st *tvStats) [
 				}
 				continue
 			}
-			name := strings.TrimPrefix(c.Env, "shadow:")
+			name := strings.TrimPrefix(strings.TrimPrefix(c.Env, "shadow:"), "shadowlocal:")
 			if !regexp.MustCompile(`(^|[^\w.])` + name + `\(`).MatchString(c.Code) {
 				continue
 			}
@@ -1461,7 +1476,7 @@ func tvJudge(prop string, c *tvCand, w tvWarning, rules []irRule, st *tvStats) [
 			sh := newSemShared()
 			a, errA := tvEvalSide(sh, c.Src)
 			goal := "true"
-			if errA == nil && len(a.ctx.calls) > 0 {
+			if errA == nil && a != nil && len(a.ctx.calls) > 0 {
 				cx := newSemCtx(sh, nil, nil)
 				real := cx.symbol("builtin_result", types.Typ[types.Int])
 				user := cx.symbol("call_"+name+"_1", types.Typ[types.Int])
